@@ -146,13 +146,20 @@ func allocProblem(binary bool, input []byte, rep parseReport) string {
 			}
 			declared = textDeclared([]byte(line))
 		}
-		// constant + 2 x declared + 3 x bytes actually consumed by the call + one 64KiB key buffer
-		bound := uint64(allocConst) + 2*declared + 3*uint64(r.Used) + 65536
+		// constant + 2 x declared + k x bytes actually consumed by the call + one 64KiB key buffer.
+		// k = 3 for binary frames; a text line is tokenised, and a token of one byte
+		// costs a string header, a slice header and a small allocation (about 48
+		// bytes per two bytes of line for "get a a a ..."), hence k = 40 there.
+		k := uint64(3)
+		if !binary {
+			k = 40
+		}
+		bound := uint64(allocConst) + 2*declared + k*uint64(r.Used) + 65536
 		if r.Stack > stackConst {
 			return fmt.Sprintf("Parse call %d (stream offset %d, consumed %d) grew the goroutine stacks by %d bytes; decoding needs constant stack (bound %d)", i, r.Off, r.Used, r.Stack, stackConst)
 		}
 		if r.Alloc > bound {
-			return fmt.Sprintf("Parse call %d (stream offset %d, consumed %d) allocated %d bytes; bound is %d (64KiB + 2 x %d declared + 3 x consumed + 64KiB)", i, r.Off, r.Used, r.Alloc, bound, declared)
+			return fmt.Sprintf("Parse call %d (stream offset %d, consumed %d) allocated %d bytes; bound is %d (64KiB + 2 x %d declared + %d x consumed + 64KiB)", i, r.Off, r.Used, r.Alloc, bound, declared, k)
 		}
 	}
 	return ""
